@@ -202,6 +202,12 @@ def gen_tree(r, tag, stream):
                                  st("from %s.inner.q import %s" % (P, n), (n, "own"))]))
         if r.random() < .4:
             ini.append(st("from . import q", ("q", "mod")))
+        if subinfo and r.random() < .5:
+            # level 2 in a package __init__: the parent's subtree is not this module's own subtree
+            (_, s0), st0 = subinfo[0]
+            dn = defined_names(st0)
+            if dn:
+                ini.append(st("from ..%s import %s" % (s0, dn[0]), (dn[0], "foreign")))
         inner_names = defined_names(ini, ("local", "own"))
     # the package __init__
     stmts = list(PROLOGUE)
